@@ -3,8 +3,10 @@
 id=$1; patch=$2; tier=${3:-quick}
 cd /verif
 if ! git -C /repo apply --check "$patch" 2>/dev/null; then echo "PATCH DOES NOT APPLY: $patch"; exit 2; fi
+cp evidence/$id.json /tmp/evidence.$id.saved 2>/dev/null
 git -C /repo apply "$patch"
 timeout 1500 ./check "$id" --tier "$tier" > /tmp/try_mutant.out 2>&1; rc=$?
 git -C /repo checkout -- .
+cp /tmp/evidence.$id.saved evidence/$id.json 2>/dev/null  # the evidence file stays the record of the unchanged tree
 tail -3 /tmp/try_mutant.out | cut -c1-300
 echo "rc=$rc"
